@@ -51,6 +51,8 @@ type Contract struct {
 	EnsSrc    []string
 	NoPanic   bool
 	NoEscape  bool
+	GoSafe    bool // spawn rule: no panic may escape a goroutine started by this function
+	Safe      bool // implicit panic sites of the function's own code are obligations; callee panics propagate
 	Pure      bool
 	Uses      []string
 	Invs      map[int][]*SExpr
@@ -248,6 +250,10 @@ func (cs *ContractSet) loadFile(path, pkgPath string) error {
 				cur.NoPanic = true
 			case "pure":
 				cur.Pure = true
+			case "safe":
+				cur.Safe = true
+			case "gosafe":
+				cur.GoSafe = true
 			case "uses":
 				cur.Uses = append(cur.Uses, strings.Fields(rest)...)
 			case "replay":
